@@ -580,11 +580,11 @@ func families(thorough bool) []family {
 		return []family{
 			// chain logic, block a alone, chains of up to 5 templates
 			{name: "A1", maxL: 5, blocks: []int{0}, choices: all6, layouts: layouts, nameForms: sq, junks: []int{1}, ctxs: []int{0, 1, 2}, pads: []int{0}},
-			// a × b and a × in: chains of up to 3 templates in every context, of 4 templates in context c0
+			// a × b and a × in: chains of up to 3 templates in every context (6 choices), of 4 templates in context c0 (5 choices)
 			{name: "A2b", maxL: 3, blocks: []int{0, 1}, choices: all6, layouts: layouts, nameForms: sq, junks: []int{1}, ctxs: []int{0, 1, 2}, pads: []int{0}},
 			{name: "A2i", maxL: 3, blocks: []int{0, 2}, choices: all6, layouts: layouts, nameForms: sq, junks: []int{1}, ctxs: []int{0, 1, 2}, pads: []int{0}},
-			{name: "A2b4", maxL: 4, blocks: []int{0, 1}, choices: all6, layouts: layouts, nameForms: sq, junks: []int{1}, ctxs: []int{0}, pads: []int{0}},
-			{name: "A2i4", maxL: 4, blocks: []int{0, 2}, choices: all6, layouts: layouts, nameForms: sq, junks: []int{1}, ctxs: []int{0}, pads: []int{0}},
+			{name: "A2b4", maxL: 4, blocks: []int{0, 1}, choices: all5, layouts: layouts, nameForms: sq, junks: []int{1}, ctxs: []int{0}, pads: []int{0}},
+			{name: "A2i4", maxL: 4, blocks: []int{0, 2}, choices: all5, layouts: layouts, nameForms: sq, junks: []int{1}, ctxs: []int{0}, pads: []int{0}},
 			// all three blocks, chains of up to 3 templates
 			{name: "B3", maxL: 3, blocks: []int{0, 1, 2}, choices: all5, layouts: layouts, nameForms: sq, junks: []int{0}, ctxs: []int{0}, pads: []int{0}},
 			// presentation: name forms × text outside blocks × contexts × padding, block a varies
